@@ -514,7 +514,7 @@ class MacroProgram(ElementProgram):
         except KeyError:
             TARGET = skip
         else:
-            TARGET = lambda node: nodes.Define(  # noqa:  E731 do not assign a lambda expression, use a def
+            TARGET = lambda node, clause=clause: nodes.Define(  # noqa:  E731 do not assign a lambda expression, use a def
                 [nodes.Alias(["default"], "target_language")],
                 nodes.Target(clause, node)
             )
